@@ -14,6 +14,10 @@ import (
 type Pt struct {
 	B *ssa.BasicBlock
 	I int
+	// Via > 0: the point is "on the (Via-1)-th outgoing edge of B" (I is B's terminator): the
+	// traversal starts by taking that edge, so that what the edge implies (the branch condition,
+	// the values the successor's phis take) is known from the start.
+	Via int
 }
 
 // Edge is the Succ-th outgoing edge of From (for an If: 0 = true, 1 = false).
@@ -38,6 +42,8 @@ type Opts struct {
 	// edge, until an instruction for which Kill returns the key is passed.
 	CondKey func(cond ssa.Value) (key string, holdsWhenTrue bool, ok bool)
 	Kill    func(ssa.Instruction) []string
+	// Assume seeds the condition memo at the start points (key → value).
+	Assume map[string]bool
 }
 
 // Reached is the result of a traversal.
@@ -102,6 +108,9 @@ func (r *Reached) PathTo(in ssa.Instruction, pos func(token.Pos) string) string 
 // incoming value is a constant or another tracked phi whose value is known; unknown otherwise) and
 // nil-able phis (interfaces, pointers: tracked as nil / non-nil, see nilClass).
 type phiInfo struct {
+	// ints: integer result temporaries of expanded helpers, tracked as I:<name>=<k> (a constant) or
+	// I:<name>=+ (some value >= 0: a slice index or length)
+	ints map[*ssa.Phi]bool
 	phis map[*ssa.Phi]bool
 	// relevant: non-phi values whose nil-ness, once tested on the path, decides an incoming edge of
 	// a tracked nil-able phi
@@ -112,7 +121,7 @@ var phiCache = map[*ssa.Function]*phiInfo{}
 
 func nilable(t types.Type) bool {
 	switch t.Underlying().(type) {
-	case *types.Interface, *types.Pointer:
+	case *types.Interface, *types.Pointer, *types.Slice, *types.Map:
 		return true
 	}
 	return false
@@ -122,7 +131,7 @@ func trackedPhis(fn *ssa.Function) *phiInfo {
 	if pi, ok := phiCache[fn]; ok {
 		return pi
 	}
-	out := &phiInfo{phis: map[*ssa.Phi]bool{}, relevant: map[ssa.Value]bool{}}
+	out := &phiInfo{phis: map[*ssa.Phi]bool{}, ints: map[*ssa.Phi]bool{}, relevant: map[ssa.Value]bool{}}
 	for _, b := range fn.Blocks {
 		for _, in := range b.Instrs {
 			p, ok := in.(*ssa.Phi)
@@ -131,6 +140,9 @@ func trackedPhis(fn *ssa.Function) *phiInfo {
 			}
 			if bt, ok := p.Type().Underlying().(*types.Basic); ok && bt.Kind() == types.Bool {
 				out.phis[p] = true
+			} else if ok && bt.Info()&types.IsInteger != 0 && strings.HasPrefix(p.Comment, "_ir") {
+				// integer result of an expanded helper: tracked as "the constant k" or "not negative"
+				out.ints[p] = true
 			} else if nilable(p.Type()) {
 				// only worth tracking when some incoming value is the nil constant
 				for _, e := range p.Edges {
@@ -143,6 +155,25 @@ func trackedPhis(fn *ssa.Function) *phiInfo {
 	}
 	for p := range out.phis {
 		if !nilable(p.Type()) {
+			// boolean phi: incoming values that are plain conditions (or their negation) are
+			// resolved from what the path has learnt about them
+			for _, e := range p.Edges {
+				v := e
+				for {
+					if u, ok := v.(*ssa.UnOp); ok && u.Op == token.NOT {
+						v = u.X
+						continue
+					}
+					break
+				}
+				if _, isC := v.(*ssa.Const); isC {
+					continue
+				}
+				if _, isPhi := v.(*ssa.Phi); isPhi {
+					continue
+				}
+				out.relevant[v] = true
+			}
 			continue
 		}
 		for _, e := range p.Edges {
@@ -212,6 +243,152 @@ func nilClass(v ssa.Value, env string, pi *phiInfo, depth int) int {
 	return -1
 }
 
+// envRaw returns the raw value stored for name.
+func envRaw(env, name string) (string, bool) {
+	for _, kv := range strings.Split(env, ";") {
+		if strings.HasPrefix(kv, name+"=") {
+			return kv[len(name)+1:], true
+		}
+	}
+	return "", false
+}
+
+// envPut sets or deletes (val == "") one raw entry.
+func envPut(env, name, val string) string {
+	var parts []string
+	if env != "" {
+		for _, kv := range strings.Split(env, ";") {
+			if !strings.HasPrefix(kv, name+"=") {
+				parts = append(parts, kv)
+			}
+		}
+	}
+	if val != "" {
+		parts = append(parts, name+"="+val)
+	}
+	sort.Strings(parts)
+	return strings.Join(parts, ";")
+}
+
+// nonNegative: v is a slice/array index of a range loop or a length.
+func nonNegative(v ssa.Value) bool {
+	for i := 0; i < 4; i++ {
+		switch x := v.(type) {
+		case *ssa.Convert:
+			v = x.X
+			continue
+		case *ssa.Call:
+			if id := CallID(x); id == "builtin.len" || id == "builtin.cap" {
+				return true
+			}
+		case *ssa.BinOp:
+			// rangeindex: t = phi + 1 with phi starting at -1
+			if x.Op == token.ADD {
+				if k, ok := ConstInt(x.Y); ok && k == 1 {
+					if ph, ok := x.X.(*ssa.Phi); ok && ph.Comment == "rangeindex" {
+						return true
+					}
+				}
+			}
+		case *ssa.Phi:
+			// an explicit counter: constant non-negative start, steps of +1
+			okAll := len(x.Edges) > 0
+			for _, e := range x.Edges {
+				if k, isC := ConstInt(e); isC {
+					if k < 0 {
+						okAll = false
+					}
+					continue
+				}
+				b, isB := e.(*ssa.BinOp)
+				if !isB || b.Op != token.ADD || b.X != ssa.Value(x) {
+					okAll = false
+					continue
+				}
+				if k, isC := ConstInt(b.Y); !isC || k < 0 {
+					okAll = false
+				}
+			}
+			return okAll
+		}
+		return false
+	}
+	return false
+}
+
+// intClass abstracts an integer value under env: ("k", true) for the constant k, ("+", true) for a
+// value known to be >= 0.
+func intClass(v ssa.Value, env string, pi *phiInfo) (string, bool) {
+	if k, ok := ConstInt(v); ok {
+		return fmt.Sprint(k), true
+	}
+	if ph, ok := v.(*ssa.Phi); ok && pi.ints[ph] {
+		return envRaw(env, "I:"+ph.Name())
+	}
+	if nonNegative(v) {
+		return "+", true
+	}
+	return "", false
+}
+
+// intCompare decides `a op k` for an abstract value a and a constant k: 1, 0 or -1 (unknown).
+func intCompare(a string, op token.Token, k int64) int {
+	b2 := func(b bool) int {
+		if b {
+			return 1
+		}
+		return 0
+	}
+	if a == "+" {
+		switch op {
+		case token.EQL:
+			if k < 0 {
+				return 0
+			}
+		case token.NEQ:
+			if k < 0 {
+				return 1
+			}
+		case token.LSS:
+			if k <= 0 {
+				return 0
+			}
+		case token.GEQ:
+			if k <= 0 {
+				return 1
+			}
+		case token.GTR:
+			if k < 0 {
+				return 1
+			}
+		case token.LEQ:
+			if k < 0 {
+				return 0
+			}
+		}
+		return -1
+	}
+	var av int64
+	if _, err := fmt.Sscan(a, &av); err != nil {
+		return -1
+	}
+	switch op {
+	case token.EQL:
+		return b2(av == k)
+	case token.NEQ:
+		return b2(av != k)
+	case token.LSS:
+		return b2(av < k)
+	case token.LEQ:
+		return b2(av <= k)
+	case token.GTR:
+		return b2(av > k)
+	case token.GEQ:
+		return b2(av >= k)
+	}
+	return -1
+}
+
 // nilTest decomposes `v != nil` / `v == nil`: the tested value and whether the condition being
 // true means non-nil.
 func nilTest(c ssa.Value) (ssa.Value, bool, bool) {
@@ -275,6 +452,16 @@ func condValue(v ssa.Value, env string, tracked *phiInfo) int {
 		}
 		return 0
 	}
+	if tracked != nil && tracked.relevant[v] {
+		if _, isBin := v.(*ssa.BinOp); !isBin {
+			if b, ok := envGet(env, "N:"+v.Name()); ok {
+				if b {
+					return 1
+				}
+				return 0
+			}
+		}
+	}
 	switch x := v.(type) {
 	case *ssa.UnOp:
 		if x.Op == token.NOT {
@@ -307,6 +494,42 @@ func condValue(v ssa.Value, env string, tracked *phiInfo) int {
 			}
 			return 0
 		}
+		// len of a slice known to be nil, compared with a constant
+		if c, ok := x.X.(*ssa.Call); ok && CallID(c) == "builtin.len" && len(c.Call.Args) == 1 {
+			if k, isC := ConstInt(x.Y); isC && nilClass(c.Call.Args[0], env, tracked, 0) == 0 {
+				return intCompare("0", x.Op, k)
+			}
+		}
+		if len(tracked.ints) > 0 {
+			// tracked integer compared with a constant
+			var ph *ssa.Phi
+			var k int64
+			op := x.Op
+			if p, ok := x.X.(*ssa.Phi); ok && tracked.ints[p] {
+				if c, isC := ConstInt(x.Y); isC {
+					ph, k = p, c
+				}
+			} else if p, ok := x.Y.(*ssa.Phi); ok && tracked.ints[p] {
+				if c, isC := ConstInt(x.X); isC {
+					ph, k = p, c
+					switch op {
+					case token.LSS:
+						op = token.GTR
+					case token.LEQ:
+						op = token.GEQ
+					case token.GTR:
+						op = token.LSS
+					case token.GEQ:
+						op = token.LEQ
+					}
+				}
+			}
+			if ph != nil {
+				if a, ok := envRaw(env, "I:"+ph.Name()); ok {
+					return intCompare(a, op, k)
+				}
+			}
+		}
 	}
 	return -1
 }
@@ -318,7 +541,7 @@ func Reach(fn *ssa.Function, starts []Pt, o Opts) *Reached {
 	var tracked *phiInfo
 	if !o.NoFlags {
 		tracked = trackedPhis(fn)
-		if len(tracked.phis) == 0 {
+		if len(tracked.phis) == 0 && len(tracked.ints) == 0 {
 			tracked = nil
 		}
 	}
@@ -357,8 +580,21 @@ func Reach(fn *ssa.Function, starts []Pt, o Opts) *Reached {
 						val = 1
 					}
 					env = envSet(env, map[string]int{"N:" + tv.Name(): val})
+				} else if tracked.relevant[c] {
+					val := 0
+					if (pred.Succs[0] == p.B) == !neg {
+						val = 1
+					}
+					env = envSet(env, map[string]int{"N:" + c.Name(): val})
 				}
 			}
+		}
+		for k, v := range o.Assume {
+			val := 0
+			if v {
+				val = 1
+			}
+			env = envSet(env, map[string]int{"K:" + k: val})
 		}
 		push(state{pt: normalize(p), env: env}, nil)
 	}
@@ -370,12 +606,15 @@ func Reach(fn *ssa.Function, starts []Pt, o Opts) *Reached {
 			continue
 		}
 		in := b.Instrs[s.pt.I]
-		if !r.Instr[in] {
-			r.Instr[in] = true
-			r.first[in] = s
-		}
-		if o.StopAt != nil && o.StopAt(in) {
-			continue
+		via := s.pt.Via
+		if via == 0 {
+			if !r.Instr[in] {
+				r.Instr[in] = true
+				r.first[in] = s
+			}
+			if o.StopAt != nil && o.StopAt(in) {
+				continue
+			}
 		}
 		if tracked != nil && s.env != "" {
 			// a value recomputed (next loop iteration) forgets what was known about the previous one
@@ -395,14 +634,14 @@ func Reach(fn *ssa.Function, starts []Pt, o Opts) *Reached {
 			}
 		}
 		if s.pt.I+1 < len(b.Instrs) {
-			push(state{pt: Pt{b, s.pt.I + 1}, env: s.env}, &s)
+			push(state{pt: Pt{B: b, I: s.pt.I + 1}, env: s.env}, &s)
 			continue
 		}
 		// last instruction: follow successors
 		only := -1
 		condKey, condPol := "", false
-		var nilFactVal ssa.Value
-		nilFactPol := false
+		var nilFactVal, boolFactVal ssa.Value
+		nilFactPol, boolFactPol := false, false
 		if ifi, ok := in.(*ssa.If); ok {
 			only = condValue(ifi.Cond, s.env, tracked)
 			if only < 0 && tracked != nil {
@@ -417,6 +656,9 @@ func Reach(fn *ssa.Function, starts []Pt, o Opts) *Reached {
 				}
 				if tv, pol, ok := nilTest(c); ok && tracked.relevant[tv] {
 					nilFactVal, nilFactPol = tv, pol != neg
+				} else if tracked.relevant[c] {
+					// a plain boolean condition that feeds a tracked flag
+					boolFactVal, boolFactPol = c, !neg
 				}
 			}
 			if only >= 0 {
@@ -448,12 +690,15 @@ func Reach(fn *ssa.Function, starts []Pt, o Opts) *Reached {
 				}
 			}
 		}
+		if via > 0 {
+			only = via - 1
+		}
 		for i, succ := range b.Succs {
 			if only >= 0 && i != only {
 				continue
 			}
 			e := Edge{b, i}
-			if o.BlockEdge != nil && o.BlockEdge(e) {
+			if via == 0 && o.BlockEdge != nil && o.BlockEdge(e) {
 				continue
 			}
 			r.Edges[e] = true
@@ -471,6 +716,13 @@ func Reach(fn *ssa.Function, starts []Pt, o Opts) *Reached {
 					val = 1
 				}
 				env = envSet(env, map[string]int{"N:" + nilFactVal.Name(): val})
+			}
+			if boolFactVal != nil {
+				val := 0
+				if (i == 0) == boolFactPol {
+					val = 1
+				}
+				env = envSet(env, map[string]int{"N:" + boolFactVal.Name(): val})
 			}
 			if tracked != nil {
 				// which predecessor index is b in succ?
@@ -494,13 +746,37 @@ func Reach(fn *ssa.Function, starts []Pt, o Opts) *Reached {
 							upd[p.Name()] = nilClass(inc, env, tracked, 0)
 							continue
 						}
+						negInc := false
+						for {
+							if u, ok := inc.(*ssa.UnOp); ok && u.Op == token.NOT {
+								inc, negInc = u.X, !negInc
+								continue
+							}
+							break
+						}
+						flip := func(v int) int {
+							if negInc && v >= 0 {
+								return 1 - v
+							}
+							return v
+						}
 						if cb, ok := ConstBool(inc); ok {
 							if cb {
-								upd[p.Name()] = 1
+								upd[p.Name()] = flip(1)
 							} else {
-								upd[p.Name()] = 0
+								upd[p.Name()] = flip(0)
 							}
-						} else if ip, ok := inc.(*ssa.Phi); ok && tracked.phis[ip] {
+						} else if tracked.relevant[inc] {
+							if v, ok := envGet(env, "N:"+inc.Name()); ok {
+								if v {
+									upd[p.Name()] = flip(1)
+								} else {
+									upd[p.Name()] = flip(0)
+								}
+							} else {
+								upd[p.Name()] = -1
+							}
+						} else if ip, ok := inc.(*ssa.Phi); ok && tracked.phis[ip] && !negInc {
 							if v, ok := envGet(s.env, ip.Name()); ok {
 								if v {
 									upd[p.Name()] = 1
@@ -519,8 +795,31 @@ func Reach(fn *ssa.Function, starts []Pt, o Opts) *Reached {
 				if len(upd) > 0 {
 					env = envSet(env, upd)
 				}
+				if len(tracked.ints) > 0 {
+					for pi, pred := range succ.Preds {
+						if pred != b {
+							continue
+						}
+						old := env
+						for _, x := range succ.Instrs {
+							p, ok := x.(*ssa.Phi)
+							if !ok {
+								break
+							}
+							if !tracked.ints[p] {
+								continue
+							}
+							if a, ok := intClass(p.Edges[pi], old, tracked); ok {
+								env = envPut(env, "I:"+p.Name(), a)
+							} else {
+								env = envPut(env, "I:"+p.Name(), "")
+							}
+						}
+						break
+					}
+				}
 			}
-			push(state{pt: Pt{succ, 0}, env: env}, &s)
+			push(state{pt: Pt{B: succ, I: 0}, env: env}, &s)
 		}
 	}
 	return r
@@ -531,7 +830,7 @@ func normalize(p Pt) Pt {
 }
 
 // Entry is the first point of fn.
-func Entry(fn *ssa.Function) Pt { return Pt{fn.Blocks[0], 0} }
+func Entry(fn *ssa.Function) Pt { return Pt{B: fn.Blocks[0]} }
 
 // After returns the points that follow instruction in.
 func After(in ssa.Instruction) []Pt {
@@ -539,11 +838,12 @@ func After(in ssa.Instruction) []Pt {
 	for i, x := range b.Instrs {
 		if x == in {
 			if i+1 < len(b.Instrs) {
-				return []Pt{{b, i + 1}}
+				return []Pt{{B: b, I: i + 1}}
 			}
+			// after a terminator: on each outgoing edge
 			var out []Pt
-			for _, s := range b.Succs {
-				out = append(out, Pt{s, 0})
+			for si := range b.Succs {
+				out = append(out, Pt{B: b, I: i, Via: si + 1})
 			}
 			return out
 		}
@@ -556,14 +856,14 @@ func At(in ssa.Instruction) Pt {
 	b := in.Block()
 	for i, x := range b.Instrs {
 		if x == in {
-			return Pt{b, i}
+			return Pt{B: b, I: i}
 		}
 	}
-	return Pt{b, 0}
+	return Pt{B: b}
 }
 
 // EdgeStart returns the point reached by following e.
-func EdgeStart(e Edge) Pt { return Pt{e.To(), 0} }
+func EdgeStart(e Edge) Pt { return Pt{B: e.From, I: len(e.From.Instrs) - 1, Via: e.Succ + 1} }
 
 // Returns lists the Return instructions of fn.
 func Returns(fn *ssa.Function) []*ssa.Return {
